@@ -12,6 +12,9 @@
 EXTENDS Integers, Sequences, FiniteSets
 
 Classes == {"prio", "ord", "un"}
+\* A participant that carries the Priority marker but has no Order() is not priority-ORDERED: the contract sequences it with
+\* the unordered ones (class "mark"; its ord is meaningless).
+Marked == [cls |-> "mark", ord |-> 0]
 Rank(c) == CASE c.cls = "prio" -> 1 [] c.cls = "ord" -> 2 [] OTHER -> 3
 \* a must be sequenced strictly before b
 Precedes(a, b) == Rank(a) < Rank(b) \/ (Rank(a) = Rank(b) /\ Rank(a) <= 2 /\ a.ord < b.ord)
